@@ -1104,7 +1104,8 @@ mod repr {
 
     fn to_f32_small(dword: DoubleWord) -> Approximation<f32, Sign> {
         let f = dword as f32;
-        if f.is_infinite() {
+        if f.is_infinite() || f == DoubleWord::MAX as f32 {
+            // rounded up to infinity or to 2^DWORD_BITS (casting back would saturate)
             return Inexact(f, Sign::Positive);
         }
 
@@ -1119,6 +1120,10 @@ mod repr {
     fn to_f64_small(dword: DoubleWord) -> Approximation<f64, Sign> {
         const_assert!((DoubleWord::MAX as f64) < f64::MAX);
         let f = dword as f64;
+        if f == DoubleWord::MAX as f64 {
+            // rounded up to 2^DWORD_BITS (casting back would saturate)
+            return Inexact(f, Sign::Positive);
+        }
         let back = f as DoubleWord;
 
         match back.partial_cmp(&dword).unwrap() {
